@@ -2,6 +2,8 @@
 # Runs every registered check (default tier quick) on /repo's working tree and prints one line each.
 tier=${1:-quick}
 cd "$(dirname "$(readlink -f "$0")")"
+# background runs started with `vp run --with-repo` work on a snapshot of /repo
+if [ -n "$VP_RUN_REPO" ]; then ln -sfn "$VP_RUN_REPO" repo; fi
 fail=0
 for p in $(./check --list); do
   s=$(date +%s)
